@@ -356,6 +356,13 @@ func messageLattices(c *vf.Ctx, pool [][]string) {
 			mk(func(r *rec) { r.typ = uint16(v) })
 			mk(func(r *rec) { r.class = uint16(v) })
 		}
+		// every assigned RR type and QTYPE (0..260) in every section: a codec may treat single types specially (OPT, ANY, AXFR …)
+		for v := 0; v <= 260; v++ {
+			mk(func(r *rec) { r.typ = uint16(v) })
+		}
+		for _, v := range []int{1, 3, 4, 254, 255} {
+			mk(func(r *rec) { r.class = uint16(v) })
+		}
 		for _, v := range enum.ByteDistinct(2) {
 			mk(func(r *rec) { r.typ = uint16(v); r.class = ^uint16(v) })
 		}
